@@ -113,11 +113,11 @@ Theorem survivors_content mx hd t files s present :
       size (sf_item x) = match p_size (s_parsed x) with Some n => n | None => f_size (s_file x) end) survivors.
 Proof.
   intros Hp Hmx Hs Hst.
-  unfold scanned in Hs.
+  unfold scanned, scan_all in Hs.
   destruct (mkdirs_ok t Hp) as (t1 & Hm & Hready). rewrite Hm in Hs. simpl in Hs.
   destruct (migrate_ok t1 Hready) as (t2 & Hmg & Hok & Hno). rewrite Hmg in Hs. simpl in Hs.
   destruct (scan_tree_ok t2 Hok Hno) as (fs & Hsc & HSO). rewrite Hsc in Hs. inversion Hs; subst fs.
-  assert (Hs2 : scanned t = Ok files) by (unfold scanned; rewrite Hm; simpl; rewrite Hmg; simpl; exact Hsc).
+  assert (Hs2 : scanned t = Ok files) by (unfold scanned, scan_all; rewrite Hm; simpl; rewrite Hmg; simpl; exact Hsc).
   destruct (startup_loaded mx hd t Hp Hmx) as (files' & s' & present' & Hs' & HF & Hst' & HL).
   rewrite Hs2 in Hs'. inversion Hs'; subst files'. rewrite Hst in Hst'. inversion Hst'; subst s' present'.
   destruct HL as [_ _ _ _ (pre & S & Hc & HE & HP & _)].
